@@ -246,7 +246,7 @@ def places_disjoint(p, q):
         # different roots: two distinct locals are disjoint, and so is a local from anything behind a
         # pointer (derefs of references to locals are resolved to the local itself by place_term);
         # two different pointers may alias
-        if cp[0][0] in ("local", "constval") or cq[0][0] in ("local", "constval"):
+        if cp[0][0] in ("local", "constval", "cell") or cq[0][0] in ("local", "constval", "cell"):
             return True
         # referents of two distinct reference parameters: a &mut parameter is noalias, and through
         # two shared references nothing is written
@@ -1124,8 +1124,19 @@ class Interp:
                 # a shared reference to a caller local is passed as a reference to its current value
                 # (the callee cannot write through it); &mut references to caller locals are not inlined
                 iargs = tuple(self._ref_values(st, a) if (argtys0[i] if i < len(argtys0) else "").startswith("&") and not (argtys0[i] if i < len(argtys0) else "").startswith("&mut") else a for i, a in enumerate(args))
-                if not any(mentions(a, lambda s_: s_[0] == "local") for a in iargs):
-                    return self._inline(st, t, bb, callee, iargs, ev)
+                cells = []
+                if "mutlocal" in self.features:
+                    # `helper(&mut local)`: the local is copied into a fresh memory cell for the duration of the call
+                    # and copied back afterwards (the callee's frame has its own locals)
+                    ia = list(iargs)
+                    for i, a in enumerate(ia):
+                        if (argtys0[i] if i < len(argtys0) else "").startswith("&mut") and isinstance(a, tuple) and a and a[0] == "ref" and place_is_local(a[1]):
+                            cell = ("cell", uid, i)
+                            cells.append((cell, a[1]))
+                            ia[i] = ("ref", cell)
+                    iargs = tuple(ia)
+                if not any(_exposes_local(a) for a in iargs):
+                    return self._inline(st, t, bb, callee, iargs, ev, cells)
         if not pure:
             # memory and by-&mut locals may change
             argtys = [effects._op_ty(self.body, a) for a in t["args"]]
@@ -1216,7 +1227,11 @@ class Interp:
         ns.add_fact(f)
         return ns
 
-    def _inline(self, st, t, bb, callee, args, ev):
+    def _inline(self, st, t, bb, callee, args, ev, cells=()):
+        if cells:
+            st = st.fork()
+            for cell, pl in cells:
+                self.write_pl(st, cell, self.read_pl(st, pl), bb, None, record=False)
         root = self
         while root.parent is not None:
             root = root.parent
@@ -1237,6 +1252,8 @@ class Interp:
         for fs in sub.final_states:
             ns = st.fork()
             ns.mem, ns.facts, ns.events, ns.nevents = fs.mem, fs.facts, fs.events, fs.nevents
+            for cell, pl in cells:
+                self.write_pl(ns, pl, self.load(ns.mem, cell), bb, None, record=False)
             res = fs.env.get(0, UNIT)
             dest = self.place_term(ns, t["dest"])
             self.write_pl(ns, dest, res, bb, None, record=not place_is_local(dest))
@@ -1843,7 +1860,9 @@ def _stateless_closure_at_entry(I, v):
                 vals = {repr(en.get(l)) for en in ens}
                 if len(vals) == 1:
                     e0 = ens[0].get(l)
-                    if isinstance(e0, tuple) and e0 and e0[0] == "agg" and isinstance(e0[1], tuple) and e0[1] and e0[1][0] == "closure" and not e0[2]:
+                    # no captures, or only captured references (the closure value itself never changes: whatever state
+                    # it updates lives behind those references, i.e. in memory)
+                    if isinstance(e0, tuple) and e0 and e0[0] == "agg" and isinstance(e0[1], tuple) and e0[1] and e0[1][0] == "closure" and all(isinstance(c_, tuple) and c_ and c_[0] == "ref" for c_ in e0[2]):
                         return e0
         cur = None if v[0] == "phi" else cur.parent
     return v
